@@ -357,16 +357,21 @@ func (w *walker) viol(first bool) {
 	}
 }
 
-// reMsg extracts the custom message of a re rule: the text after the first "|"
-// that follows the closing quote of the pattern.
+// ReMsg extracts the custom message of a re rule: re='<pattern>'|<message>;
+// the pattern ends at the first quote that is not escaped by a backslash.
 func ReMsg(item string) string {
-	q := strings.LastIndex(item, "'")
-	if q < 0 {
+	open := strings.Index(item, "'")
+	if open < 0 {
 		return ""
 	}
-	rest := item[q+1:]
-	if strings.HasPrefix(rest, "|") {
-		return rest[1:]
+	for i := open + 1; i < len(item); i++ {
+		if item[i] == '\'' && item[i-1] != '\\' {
+			rest := item[i+1:]
+			if strings.HasPrefix(rest, "|") {
+				return rest[1:]
+			}
+			return ""
+		}
 	}
 	return ""
 }
